@@ -46,6 +46,7 @@ struct ChSnap {
 struct FrSnap {
     std::vector<PtSnap> pts; std::vector<std::vector<ChSnap>> subs;
     const void* paddr = nullptr; const void* aaddr = nullptr;   // identity of the Points / Analogs holders (aliasing)
+    std::string byNameMismatch;   // non-empty when a by-name look-up in this frame does not lead to the first element that carries the name (read by position)
     bool sameContent(const FrSnap& o) const { return pts == o.pts && subs == o.subs; }
     bool sameContentNoResidual(const FrSnap& o) const {
         if (pts.size() != o.pts.size() || subs != o.subs) return false;
@@ -110,6 +111,17 @@ inline FrSnap snapFrame(const ezc3d::DataNS::Frame& f) {
         for (auto& c : sf.channels()) { ChSnap q; q.name = c.name(); q.v = fbits(c.data()); v.push_back(q); }
         s.subs.push_back(v);
     }
+    // the second view of the same content: every name, looked up, must lead to the first element that carries it
+    for (size_t i = 0; i < s.pts.size() && s.byNameMismatch.empty(); ++i) {
+        size_t want = i; for (size_t j = 0; j < i; ++j) if (s.pts[j].name == s.pts[i].name) { want = j; break; }
+        long got = -1; try { got = (long)f.points().pointIdx(s.pts[i].name); } catch (const std::exception&) { got = -1; }
+        if (got != (long)want) s.byNameMismatch = "point '" + s.pts[i].name + "' at " + std::to_string(want) + " found at " + std::to_string(got);
+    }
+    for (size_t k = 0; k < s.subs.size() && s.byNameMismatch.empty(); ++k) for (size_t i = 0; i < s.subs[k].size() && s.byNameMismatch.empty(); ++i) {
+        size_t want = i; for (size_t j = 0; j < i; ++j) if (s.subs[k][j].name == s.subs[k][i].name) { want = j; break; }
+        long got = -1; try { got = (long)f.analogs().subframe(k).channelIdx(s.subs[k][i].name); } catch (const std::exception&) { got = -1; }
+        if (got != (long)want) s.byNameMismatch = "channel '" + s.subs[k][i].name + "' of sub-frame " + std::to_string(k) + " at " + std::to_string(want) + " found at " + std::to_string(got);
+    }
     return s;
 }
 inline HSnap snapHeader(const ezc3d::Header& h) {
@@ -165,7 +177,7 @@ inline void dumpFrame(std::string& o, const FrSnap& f) {
     for (auto& p : f.pts) { esc(o, p.name); o += ':'; for (int k = 0; k < 4; ++k) { hex8(o, p.v[k]); if (k < 3) o += '/'; } o += ' '; }
     o += "] subs=[";
     for (auto& s : f.subs) { o += '('; for (auto& c : s) { esc(o, c.name); o += ':'; hex8(o, c.v); o += ' '; } o += ')'; }
-    o += "]\n";
+    o += "]"; if (!f.byNameMismatch.empty()) { o += " !byname: "; o += f.byNameMismatch; } o += "\n";
 }
 inline void dumpHeader(std::string& o, const HSnap& h) {
     o += "H zeros="; unum(o, h.zeros); o += " paddr="; unum(o, h.paramAddr); o += " ck="; unum(o, h.checksum);
